@@ -45,9 +45,14 @@ def record(case):
             if not w.bp.force_chain_reorg(case['n']):
                 raise common.Broken('forced reorg refused')
             new_blocks = base.blocks
-        w.poll()
-        if not w.at_daemon_tip() or not marks:
-            raise common.Broken('recorded reorg did not complete (C03 territory)')
+        try:
+            w.poll()
+        except (world.SyncFailed, world.Stalled) as e:
+            raise UninterruptedFailed(repr(e.args[0] if e.args else e)[:200])
+        if not w.at_daemon_tip():
+            raise UninterruptedFailed('not at the daemon tip')
+        if not marks:
+            raise common.Broken('recorded run undid no block')
         log = list(m0.log)
         w.close(destroy=False)
     finally:
@@ -55,6 +60,11 @@ def record(case):
     x_ext = reorgrun.sim_for(base_recipes + ['new', 'old', 'cb']).blocks   # longer than any branch
     return dict(snapshot=snapshot, log=log, marks=marks, params=dict(world=wparams),
                 base=base.blocks, new=new_blocks, x_ext=x_ext, limit=limit)
+
+
+class UninterruptedFailed(Exception):
+    '''The reorganisation does not even complete without a crash (the degenerate crash point
+    "after the last effect"): nothing to recover to.'''
 
 
 def continuations(case, rec):
@@ -114,7 +124,12 @@ def check_point(rec, case, k, nbytes, res):
 
 
 def run_case(case, res):
-    rec = record(case)
+    try:
+        rec = record(case)
+    except UninterruptedFailed as e:
+        res.count('scenarios')
+        res.violation('reorg-fails-even-without-a-crash', case, dict(error=str(e)))
+        return
     log, marks = rec['log'], rec['marks']
     lo = min(i for t, i in marks if t == 'start')
     hi = len(log)       # ... and on through re-indexing the new branch up to catch-up
